@@ -1,11 +1,15 @@
 """C10 -- drives the real lenskit matrix-factorisation trainers and canonicalises what they did.
 
-Imported lazily by harness/props/c10.py after common.use_repo().  Nothing here knows about the Coq model.
+Imported by harness/props/c10.py; lenskit itself is imported lazily (setup(), after common.use_repo()).  Nothing here knows about the Coq model.
 Observation hooks are installed from outside (no source hooks):
   * ALS: the instance attribute `als_half_epoch` is wrapped to snapshot both factor matrices around
-    every half-step; `lenskit.als._explicit._train_bias_row_cholesky` (module global) and the instance
-    method `_train_new_row` are wrapped to record the fold-in system's inputs and output.
+    every half-step and `new_user_embedding` to record the folded-in embedding; while they exist,
+    `lenskit.als._explicit._train_bias_row_cholesky` (module global) and the instance method
+    `_train_new_row` are wrapped to record the row a fold-in used.  Trained state is read back through
+    public attributes only (`user_features_`, `item_features_`, `bias_`); private caches are not read.
   * FunkSVD: `lenskit.funksvd.Context` is wrapped to record the sample arrays handed to the trainer.
+A case may carry a training history (`case["trainings"]`): all its trainings run on ONE scorer object,
+each followed by its own queries; the observation of the j-th later training is `obs["later"][j-1]`.
 """
 
 from __future__ import annotations
@@ -122,9 +126,27 @@ def err_kind(e):
     return "E:" + type(e).__name__
 
 
+def phase_cases(case):
+    """The trainings run one after the other on ONE scorer object: the case itself, then each entry of
+    case["trainings"] (its dataset, seed, retrain flag and queries; the configuration stays that of the object)."""
+    base = {k: v for k, v in case.items() if k != "trainings"}
+    out = [base]
+    for t in case.get("trainings") or []:
+        out.append({**base, **t})
+    return out
+
+
+def train_options(pc):
+    return TrainingOptions(rng=pc["seed"], retrain=pc.get("retrain", True))
+
+
 def run_als(case):
+    """Only public behaviour is read back: the dataset's vocabularies, `user_features_` / `item_features_` / `bias_`, the
+    arguments of the public hook `als_half_epoch(epoch, TrainContext)`, the result of `new_user_embedding`, the scores.
+    Private caches (e.g. the implicit fold-in matrix) are NOT read: the fold-in system is rebuilt from the trained
+    item embeddings and the configuration by the model and the oracle.  The two private row solvers are wrapped only to
+    see which (item number, value) pairs a fold-in used; if a refactoring removes them the observation has no `folds`."""
     setup()
-    ds = build_dataset(case)
     explicit = case["kind"] == "als-explicit"
     kw = dict(embedding_size=case["k"], epochs=case["epochs"], regularization=reg_arg(case),
               user_embeddings=case["user_embeddings"])
@@ -132,61 +154,41 @@ def run_als(case):
         m = BiasedMFScorer(damping=damping_arg(case), **kw)
     else:
         m = ImplicitMFScorer(weight=float(fparse(case["weight"])), use_ratings=case["use_ratings"], **kw)
-    steps, mats, regs = [], {}, {}
+    rec = {"steps": [], "mats": {}, "regs": {}}
     orig = m.als_half_epoch
 
     def wrap(epoch, ctx):
         before, other = ctx.left.clone(), ctx.right.clone()
         r = orig(epoch, ctx)
-        steps.append({"side": ctx.label, "before": mat(before), "other": mat(other), "after": mat(ctx.left.clone())})
-        if ctx.label not in mats:
-            mats[ctx.label] = csr_rows(ctx.matrix)
-            regs[ctx.label] = num(ctx.reg)
+        rec["steps"].append({"side": ctx.label, "before": mat(before), "other": mat(other), "after": mat(ctx.left.clone())})
+        if ctx.label not in rec["mats"]:
+            rec["mats"][ctx.label] = csr_rows(ctx.matrix)
+            rec["regs"][ctx.label] = num(ctx.reg)
         return r
 
     m.als_half_epoch = wrap
-    obs = {"users": ds.users.ids().tolist(), "items": ds.items.ids().tolist()}
-    try:
-        m.train(ds, TrainingOptions(rng=case["seed"]))
-    except Exception as e:  # the linear solver may fail (no ridge); anything else is reported by the oracle
-        obs["error"] = err_kind(e)
-        obs["msg"] = str(e)[:120]
-        obs["steps_done"] = len(steps)
-        return obs
-    obs["error"] = None
-    obs["steps"] = steps
-    obs["matrix"] = mats
-    obs["ctx_reg"] = regs
-    obs["P"] = None if m.user_features_ is None else mat(m.user_features_)
-    obs["Q"] = mat(m.item_features_)
-    obs["dtype"] = str(m.item_features_.dtype)
+
+    folds, embeds = [], []
+    restore = None
     if explicit:
-        obs["bias"] = bias_obs(m.bias_)
+        saved = getattr(ex_mod, "_train_bias_row_cholesky", None)
+        if saved is not None:
+            def rec_fold(items, ratings, *a, **k):
+                x = saved(items, ratings, *a, **k)
+                folds.append({"nums": items.tolist(), "vals": vecj(ratings), "x": vecj(x), "vals_dtype": str(ratings.dtype)})
+                return x
+
+            ex_mod._train_bias_row_cholesky = rec_fold
+            restore = lambda: setattr(ex_mod, "_train_bias_row_cholesky", saved)
     else:
-        obs["OtOr"] = mat(m.OtOr_)
+        saved_new = getattr(m, "_train_new_row", None)
+        if saved_new is not None:
+            def rec_new(items, ratings, *a, **k):
+                x = saved_new(items, ratings, *a, **k)
+                folds.append({"nums": items.tolist(), "vals": vecj(ratings), "x": vecj(x), "vals_dtype": str(ratings.dtype)})
+                return x
 
-    # fold-in / scoring
-    folds = []
-    if explicit:
-        saved = ex_mod._train_bias_row_cholesky
-
-        def rec_fold(items, ratings, other, reg):
-            x = saved(items, ratings, other, reg)
-            folds.append({"nums": items.tolist(), "vals": vecj(ratings), "reg": num(reg), "x": vecj(x),
-                          "vals_dtype": str(ratings.dtype)})
-            return x
-
-        ex_mod._train_bias_row_cholesky = rec_fold
-    else:
-        saved_new = m._train_new_row
-
-        def rec_new(items, ratings, i_embeds, OtOr):
-            x = saved_new(items, ratings, i_embeds, OtOr)
-            folds.append({"nums": items.tolist(), "vals": vecj(ratings), "x": vecj(x), "vals_dtype": str(ratings.dtype)})
-            return x
-
-        m._train_new_row = rec_new
-    embeds = []
+            m._train_new_row = rec_new
     orig_nue = m.new_user_embedding
 
     def rec_nue(user_num, items):
@@ -195,24 +197,59 @@ def run_als(case):
         return u, off
 
     m.new_user_embedding = rec_nue
-    qobs = []
+
+    out = []
     try:
-        for q in case["queries"]:
-            folds.clear()
-            embeds.clear()
-            cand = ItemList(item_ids=np.array(q["items"], dtype=np.int64))
-            try:
-                res = m(make_query(q), cand)
-                o = scores_obs(res, q["items"])
-                o["error"] = None
-            except Exception as e:
-                o = {"error": err_kind(e), "msg": str(e)[:120]}
-            o["folds"] = [dict(f) for f in folds]
-            o["embeds"] = [dict(e) for e in embeds]
-            qobs.append(o)
+        for pc in phase_cases(case):
+            o = als_phase(m, pc, rec, explicit, folds, embeds)
+            out.append(o)
+            if o["error"]:
+                break       # the object is in no defined state after a failed training
     finally:
-        if explicit:
-            ex_mod._train_bias_row_cholesky = saved
+        if restore:
+            restore()
+    obs = out[0]
+    if len(out) > 1 or case.get("trainings"):
+        obs["later"] = out[1:]
+    return obs
+
+
+def als_phase(m, pc, rec, explicit, folds, embeds):
+    ds = build_dataset(pc)
+    rec["steps"], rec["mats"], rec["regs"] = [], {}, {}
+    obs = {"users": ds.users.ids().tolist(), "items": ds.items.ids().tolist()}
+    try:
+        m.train(ds, train_options(pc))
+    except Exception as e:  # the linear solver may fail (no ridge); anything else is reported by the oracle
+        obs["error"] = err_kind(e)
+        obs["msg"] = str(e)[:120]
+        obs["steps_done"] = len(rec["steps"])
+        return obs
+    obs["error"] = None
+    obs["steps"] = rec["steps"]
+    obs["matrix"] = rec["mats"]
+    obs["ctx_reg"] = rec["regs"]
+    obs["P"] = None if m.user_features_ is None else mat(m.user_features_)
+    obs["Q"] = mat(m.item_features_)
+    obs["dtype"] = str(m.item_features_.dtype)
+    if explicit:
+        obs["bias"] = bias_obs(m.bias_)
+
+    # fold-in / scoring
+    qobs = []
+    for q in pc["queries"]:
+        folds.clear()
+        embeds.clear()
+        cand = ItemList(item_ids=np.array(q["items"], dtype=np.int64))
+        try:
+            res = m(make_query(q), cand)
+            o = scores_obs(res, q["items"])
+            o["error"] = None
+        except Exception as e:
+            o = {"error": err_kind(e), "msg": str(e)[:120]}
+        o["folds"] = [dict(f) for f in folds]
+        o["embeds"] = [dict(e) for e in embeds]
+        qobs.append(o)
     obs["queries"] = qobs
     return obs
 
@@ -223,13 +260,26 @@ def hexf(x):
 
 def run_funksvd(case):
     setup()
-    ds = build_dataset(case)
     rngv = case["range"]
     m = FunkSVDScorer(
         features=case["k"], epochs=case["epochs"], learning_rate=float(fparse(case["lrate"])),
         regularization=float(fparse(case["reg"])), damping=damping_arg(case),
         range=None if rngv is None else (float(fparse(rngv[0])), float(fparse(rngv[1]))),
     )
+    out = []
+    for pc in phase_cases(case):
+        o = funksvd_phase(m, pc)
+        out.append(o)
+        if o["error"]:
+            break
+    obs = out[0]
+    if len(out) > 1 or case.get("trainings"):
+        obs["later"] = out[1:]
+    return obs
+
+
+def funksvd_phase(m, pc):
+    ds = build_dataset(pc)
     captured = {}
     Ctx = fsvd_mod.Context
 
@@ -242,7 +292,7 @@ def run_funksvd(case):
     fsvd_mod.Context = rec_ctx
     obs = {"users": ds.users.ids().tolist(), "items": ds.items.ids().tolist()}
     try:
-        m.train(ds, TrainingOptions(rng=case["seed"]))
+        m.train(ds, train_options(pc))
     except Exception as e:
         obs["error"] = err_kind(e)
         obs["msg"] = str(e)[:120]
@@ -250,21 +300,21 @@ def run_funksvd(case):
     finally:
         fsvd_mod.Context = Ctx
     obs["error"] = None
-    obs["ctx"] = captured
+    obs["ctx"] = captured or None          # None: this call of train() did not run the trainer
     obs["P"] = [[hexf(x) for x in row] for row in m.user_features_.tolist()]
     obs["Q"] = [[hexf(x) for x in row] for row in m.item_features_.tolist()]
     obs["bias"] = bias_obs(m.bias_)
     # the seeded sample order, recomputed from the same generator; the COO matrix in its stored order
     coo = ds.interaction_matrix(format="pandas", layout="coo", field="rating")
     shuf = np.arange(len(coo), dtype=np.int_)
-    np.random.default_rng(case["seed"]).shuffle(shuf)
+    np.random.default_rng(pc["seed"]).shuffle(shuf)
     coo = coo.iloc[shuf, :]
     obs["expected_order"] = {
         "users": np.asarray(coo["user_num"]).tolist(), "items": np.asarray(coo["item_num"]).tolist(),
         "ratings": [hexf(x) for x in np.asarray(coo["rating"], dtype=np.float64).tolist()],
     }
     qobs = []
-    for q in case["queries"]:
+    for q in pc["queries"]:
         cand = ItemList(item_ids=np.array(q["items"], dtype=np.int64))
         try:
             res = m(make_query(q), cand)
